@@ -58,7 +58,41 @@ def _arbitrary(draw, shard, nshards):
     weights = ["note"] * 5 + ["rst"] * 4 + ["bar"] * 2 + ["tsg"] * 2 + ["run"] * 3 + ["ctl"]
     weights = [w for w in weights if w in cls]
     n = draw(st.one_of(st.integers(0, 60), st.integers(15, 60)))
-    stream = [draw(st.sampled_from(cls[draw(st.sampled_from(weights))])) for _ in range(n)]
+    # the generator keeps a rough picture of the bar it is in, only to be able to aim: 'fill' emits rests that sum
+    # exactly to what is left of the bar (with or without a bar token after them) -- a shape random drawing never hits
+    ppqn = cfg.get("ppqn") or 24
+    rests = sorted((int(t[4:]) for t in cls.get("rst", [])), reverse=True)
+    cap = remaining = 4 * ppqn
+    in_bar = 0
+    stream = []
+    while len(stream) < n:
+        kind = draw(st.sampled_from(weights + ["fill", "fill"]))
+        if kind == "fill":
+            left, chosen = remaining, []
+            for r in rests:
+                while 0 < r <= left and len(chosen) < 12:
+                    chosen.append(r)
+                    left -= r
+            if left == 0 and chosen:
+                stream.extend(f"rst_{r:02}" for r in chosen)
+                in_bar += remaining
+                remaining = 0
+                follow = draw(st.sampled_from(["tsg", "note", "bar", "tsg", "none"]))
+                if follow != "none" and follow in cls:
+                    kind = follow
+                else:
+                    continue
+            else:
+                continue
+        t = draw(st.sampled_from(cls[kind]))
+        stream.append(t)
+        if kind == "rst":
+            remaining -= int(t[4:])
+            in_bar += int(t[4:])
+        elif kind == "bar":
+            remaining, in_bar = cap, 0
+        elif kind == "tsg" and in_bar == 0:
+            cap = remaining = 4 * ppqn * int(t[4:6]) // 8
     return {"kind": "arbitrary", "cfg": cfg, "stream": stream, "impute": draw(st.booleans())}
 
 
